@@ -141,6 +141,10 @@ type srun struct {
 	inC    bool // some goroutine is inside closeWithError (last snapshot)
 	fatal  string
 	anon   int
+	// a frame nobody asked for entered the transport (the connection's own heartbeat, first due 1 s after the
+	// connection was made): the history is still judged by the monitor, but the sched line (which names the
+	// requests the scheduler started) is not emitted for that scenario.
+	anonSeen bool
 }
 
 func newRun(conf sconf) (*srun, string) {
@@ -470,6 +474,7 @@ func (ru *srun) identify(w *gwrite, f *gframe) int {
 		}
 	}
 	ru.anon++
+	ru.anonSeen = true
 	return ru.anon
 }
 
@@ -794,6 +799,9 @@ func runSched(r *vh.Rng, conf sconf) (string, string, string, string) {
 	}
 	if maxHeld > 1 {
 		cls += "/CONCURRENT-WRITES"
+	}
+	if ru.anonSeen {
+		return "", "", ru.traceLine(), cls + "/own-heartbeat"
 	}
 	return ru.schedLine(), ru.answer(), ru.traceLine(), cls
 }
